@@ -34,6 +34,7 @@ PROP_MODULES = {
     "C14": ["contracts.c14"],
     "C03": ["contracts.c03"],
     "C18": ["contracts.c18"],
+    "C13": ["contracts.c13"],
 }
 
 
